@@ -156,6 +156,12 @@ func init() {
 				}
 			}
 		}
+		for _, pc := range nearDupCases(c, "c06-near-duplicates") {
+			if strings.Contains(pc.Labels[0], "Length") || strings.Contains(pc.Labels[0], "attern") {
+				pc.Labels = []string{"near-duplicate", pc.Labels[0]}
+				pcs = append(pcs, pc)
+			}
+		}
 		res := runCases(c, pcs)
 		fails := verdictOracle(c, res, "string length / pattern", func(r *core.PResult, i int) bool {
 			// byte counting (K1): only ASCII documents are in scope when a length keyword is present
@@ -362,6 +368,12 @@ func init() {
 				}
 			}
 		}
+		for _, pc := range nearDupCases(c, "c07-near-duplicates") {
+			if strings.Contains(pc.Labels[0], "Items") || strings.Contains(pc.Labels[0], "items") {
+				pc.Labels = []string{string(PosOptional), "depth=1", "in-scope", pc.Labels[0]}
+				pcs = append(pcs, pc)
+			}
+		}
 		res := runCases(c, pcs)
 		fails += verdictOracle(c, res, "array length limits", func(r *core.PResult, i int) bool {
 			return r.Case.Labels[2] == "K2-region"
@@ -463,8 +475,18 @@ func init() {
 				pcs = append(pcs, baseCase("c08-enum", schema, docs, name, pos))
 			}
 		}
+		// same-named nodes whose enums differ (members, or only the JSON type of the members): each position keeps
+		// its own accepted set
+		var ndCases []*core.PCase
+		for _, pc := range nearDupCases(c, "c08-near-duplicates") {
+			if strings.Contains(pc.Labels[0], "enum") {
+				ndCases = append(ndCases, pc)
+			}
+		}
+		ndRes := runCases(c, ndCases)
+		ndFails := verdictOracle(c, ndRes, "enum membership (same-named nodes)", nil)
 		res := runCases(c, pcs)
-		fails := verdictOracle(c, res, "enum membership", func(r *core.PResult, i int) bool {
+		fails := ndFails + verdictOracle(c, res, "enum membership", func(r *core.PResult, i int) bool {
 			// null at a non-nullable position is the `null` convention (DESIGN §1.3): neither verdict is claimed
 			d := r.DocJSON[i]
 			return strings.Contains(d, "null") && r.Case.Labels[0] != "mixed-null"
@@ -526,6 +548,7 @@ func init() {
 				c.Sample(M{"schema": string(r.SchemaJSON), "doc": r.DocJSON[0], "labels": r.Case.Labels})
 			}
 		}
+		res = append(res, ndRes...)
 		breaks(c, res, nil, fails > 0)
 		knownProgramFindings(c)
 	})
